@@ -62,6 +62,9 @@ func (e *Engine) registerValue(key string, t types.Type, v SV, st *State, depth 
 	for i, l := range lv {
 		vc.addModelTerm(ts[i], key+":"+l.Suffix)
 	}
+	if isTimeType(t) {
+		return
+	}
 	switch u := t.Underlying().(type) {
 	case *types.Slice:
 		s := v.(*SliceSV)
@@ -101,9 +104,22 @@ func (e *Engine) registerStructFields(key string, t types.Type, v SV, st *State)
 			continue
 		}
 		fk := key + "." + f.Name()
+		if isTimeType(f.Type()) {
+			continue
+		}
 		switch ft := f.Type().Underlying().(type) {
 		case *types.Struct:
 			e.registerStructFields(fk, f.Type(), sv.F[i], st)
+		case *types.Pointer:
+			e.vc.addModelTerm(e.flatten(f.Type(), sv.F[i])[0], fk+":")
+			if _, isS := ft.Elem().Underlying().(*types.Struct); isS && strings.Count(key, ":deref") < 3 {
+				func() {
+					defer func() { recover() }()
+					ref := e.flatten(f.Type(), sv.F[i])[0]
+					obj := e.loadRaw(st, &PtrSV{Kind: pkHeap, Ref: ref, Root: ft.Elem()}, ft.Elem())
+					e.registerStructFields(fk+":deref", ft.Elem(), obj, st)
+				}()
+			}
 		case *types.Slice:
 			_ = ft
 			e.registerValue(fk, f.Type(), sv.F[i], st, 1)
@@ -261,6 +277,9 @@ func (e *Engine) replay(o *Obligation, propID string) replayResult {
 	if fn.Pkg == nil {
 		res.log = "not replayed (no package)"
 		return res
+	}
+	if tmpl, ok := e.replayTemplate(fn); ok {
+		return e.replayWithTemplate(o, fn, tmpl, model, res)
 	}
 	g := &goGen{pkg: fn.Pkg.Pkg, imports: map[string]string{}}
 	var body strings.Builder
@@ -444,6 +463,15 @@ func (e *Engine) replay(o *Obligation, propID string) replayResult {
 // genValue emits Go code that declares `name` with the value described by the model.
 func (e *Engine) genValue(g *goGen, key string, t types.Type, model map[string]*big.Int, name string) (string, bool) {
 	ts := g.typeStr(t)
+	if isTimeType(t) {
+		v, has := model[key+":"]
+		if !has {
+			return "", false
+		}
+		sec := new(big.Int).Div(v, big.NewInt(1000000000))
+		ns := new(big.Int).Mod(v, big.NewInt(1000000000))
+		return fmt.Sprintf("\t%s := time.Unix(%s, %s)\n", name, sec.String(), ns.String()), true
+	}
 	switch u := t.Underlying().(type) {
 	case *types.Basic:
 		if w, s, ok := intInfo(u); ok {
@@ -553,4 +581,93 @@ func (e *Engine) genStructFields(g *goGen, key string, t types.Type, st *types.S
 		}
 	}
 	return b.String(), true
+}
+
+// ---- per-function replay templates (/verif/replay/<key>.go.tmpl) ------------------
+//
+// Placeholders: {{INSTREAM}} -> []byte literal of the model's input stream;
+// {{M:<key>|<default>}} -> the model integer registered under <key>.
+// The template prints REPLAY-RESULT / REPLAY-PANIC lines like the generic harness
+// and a line "REPLAY-VERDICT: violated" when it observes the violation itself.
+
+func (e *Engine) replayTemplate(fn *ssa.Function) (string, bool) {
+	name := sanitizeSym(strings.TrimPrefix(funcKey(fn), modPath+"/")) + ".go.tmpl"
+	b, err := os.ReadFile(filepath.Join(*flagVerif, "replay", name))
+	if err != nil {
+		return "", false
+	}
+	return string(b), true
+}
+
+func (e *Engine) replayWithTemplate(o *Obligation, fn *ssa.Function, tmpl string, model map[string]*big.Int, res replayResult) replayResult {
+	res.hasInput = true
+	var in []string
+	for k := 0; k < replayElems; k++ {
+		v := model[fmt.Sprintf("instream:%d", k)]
+		if v == nil {
+			v = big.NewInt(0)
+		}
+		in = append(in, signedVal(v, 8, false).String())
+	}
+	src := strings.ReplaceAll(tmpl, "{{INSTREAM}}", "[]byte{"+strings.Join(in, ", ")+"}")
+	for {
+		i := strings.Index(src, "{{M:")
+		if i < 0 {
+			break
+		}
+		j := strings.Index(src[i:], "}}")
+		if j < 0 {
+			break
+		}
+		spec := src[i+4 : i+j]
+		def := "0"
+		if k := strings.LastIndex(spec, "|"); k >= 0 {
+			def = spec[k+1:]
+			spec = spec[:k]
+		}
+		val := def
+		if v, ok := model[spec]; ok {
+			val = signedVal(v, 64, true).String()
+		}
+		src = src[:i] + val + src[i+j+2:]
+	}
+	dir, err := os.MkdirTemp("", "govc-replay")
+	if err != nil {
+		res.log = "cannot create scratch dir"
+		return res
+	}
+	defer os.RemoveAll(dir)
+	testFile := filepath.Join(dir, "replay_test.go")
+	os.WriteFile(testFile, []byte(src), 0o644)
+	pkgDir := filepath.Join(e.repoRoot, strings.TrimPrefix(strings.TrimPrefix(fn.Pkg.Pkg.Path(), modPath), "/"))
+	ov := map[string]map[string]string{"Replace": {filepath.Join(pkgDir, "zz_replay_verif_test.go"): testFile}}
+	ovb, _ := json.Marshal(ov)
+	ovFile := filepath.Join(dir, "ov.json")
+	os.WriteFile(ovFile, ovb, 0o644)
+	ctx, cancel := context.WithTimeout(context.Background(), 180*time.Second)
+	defer cancel()
+	cmd := exec.CommandContext(ctx, "go", "test", "-overlay", ovFile, "-vet=off", "-count=1", "-timeout", "60s", "-run", "^TestZZReplayVerif$", "-v", ".")
+	cmd.Dir = pkgDir
+	cmd.Env = append(os.Environ(), "GOFLAGS=-mod=mod", "GOPROXY=off", "GOSUMDB=off", "GOTOOLCHAIN=local")
+	out, _ := cmd.CombinedOutput()
+	text := string(out)
+	var keep []string
+	for _, l := range strings.Split(text, "\n") {
+		if strings.HasPrefix(l, "REPLAY-") || strings.Contains(l, "panic") || strings.Contains(l, "FAIL") || strings.Contains(l, ".go:") {
+			keep = append(keep, l)
+		}
+	}
+	res.log = "generated test (from template):\n" + indent(src, "    ") + "\noutput:\n" + indent(strings.Join(keep, "\n"), "    ")
+	panicked := strings.Contains(text, "REPLAY-PANIC:") || strings.Contains(text, "panic:")
+	switch {
+	case strings.Contains(o.Kind, "safety:") && panicked:
+		res.confirmed = true
+		res.log += "\nverdict: the real code panics on the model's input"
+	case strings.Contains(text, "REPLAY-VERDICT: violated"):
+		res.confirmed = true
+		res.log += "\nverdict: the real code exhibits the violation on the model's input"
+	default:
+		res.log += "\nverdict: the real code does not exhibit the violation on this input (model not confirmed)"
+	}
+	return res
 }
